@@ -29,6 +29,8 @@ def plan(tier):
                                if base not in ("jwe_segments", "jwe_json_shape") else "alg #" + v)
         conds.append(Cond(path, n, "main", T, note))
     conds += [Cond(BASE, "jwe_p2c_any_int", "main", T, "PBES2 p2c: any (unbounded) int or bool"),
+              Cond(BASE, "jwe_cbc", "main", T, "A128CBC-HS256 (dir, A128KW): IV/tag length classes, MAC verdict, and every class of CBC output under a valid tag "
+                                               "(well padded, empty, bad padding, only padding), with and without zip"),
               Cond(BASE, "jws_witness", "witness", 60), Cond(BASE, "jwe_witness", "witness", 60)]
     meta = {
         "engine": "E1 CrossHair on every consumer entry point in the adversarial ice environment",
